@@ -407,4 +407,52 @@ def rule_cmd(ctx):
     ctx.ob("C06.CMD", cm, "the client sends command + END_OF_LINE, encoded", ok, "the client does not send the command followed by exactly one END_OF_LINE", construct="command:line form")
 
 
-RULES = [rule_enc, rule_dec, rule_mask, rule_lit, rule_cmd]
+def rule_support(ctx):
+    p = ctx.p
+    ctx.rule("C06.SUPPORT", "the helpers the codec relies on keep their contract: wrap_with_container() returns its argument unchanged (a string becomes a one-element tuple), "
+                            "Code is a plain str (constructing it from the first three characters of a line changes nothing)")
+    wc = p.module_funcs.get(("common.py", "wrap_with_container"))
+    if wc is None:
+        raise AnalysisError("anchor=common.wrap_with_container not found")
+    par = wc.args.args[0].arg
+
+    def identity(v, depth=3):
+        v = v
+        if isinstance(v, ast.Name) and v.id == par:
+            return True
+        if isinstance(v, (ast.Tuple, ast.List)) and len(v.elts) == 1 and isinstance(v.elts[0], ast.Name) and v.elts[0].id == par:
+            return True
+        if isinstance(v, ast.Call) and isinstance(v.func, ast.Name) and v.func.id in ("tuple", "list") and len(v.args) == 1 and not v.keywords:
+            return identity(v.args[0], depth - 1)
+        if isinstance(v, ast.Name) and depth > 0:
+            ds = [d_ for k, d_, _ in local_defs(wc, v.id) if k == "assign"]
+            return bool(ds) and all(identity(d_, depth - 1) for d_ in ds)
+        return False
+    vals = [r.value for r in walk_no_nested(wc) if isinstance(r, ast.Return) and r.value is not None] + \
+           [n.value for n in walk_no_nested(wc) if isinstance(n, ast.Assign) and any(isinstance(t, ast.Name) and t.id == par for t in n.targets)]
+    bad = [v for v in vals if not identity(v)]
+    ctx.ob("C06.SUPPORT", bad[0] if bad else wc, "wrap_with_container returns its argument's items unchanged", bool(vals) and not bad,
+           f"wrap_with_container produces `{src(bad[0])[:50] if bad else ''}`: reply lines are split, de-duplicated or reordered before they are framed "
+           "(a name containing a line-boundary character becomes two lines; a repeated line is dropped)", construct="support:wrap_with_container")
+    # the line length the decoder accepts is asyncio's (64 KiB): the library configures no smaller StreamReader limit of its own
+    lim = []
+    for mod in ("client.py", "server.py", "common.py"):
+        for c in ast.walk(p.trees[mod]):
+            if isinstance(c, ast.Call):
+                if any(k.arg == "limit" for k in c.keywords) and (dotted(c.func) or "").split(".")[-1] in ("open_connection", "start_server", "StreamReader", "partial"):
+                    lim.append(c)
+                if isinstance(c.func, ast.Attribute) and c.func.attr in ("setdefault", "update") and c.args and isinstance(c.args[0], ast.Constant) and c.args[0].value == "limit":
+                    lim.append(c)
+            if isinstance(c, ast.Assign) and any(isinstance(t, ast.Subscript) and isinstance(t.slice, ast.Constant) and t.slice.value == "limit" for t in c.targets):
+                lim.append(c)
+    ctx.ob("C06.SUPPORT", lim[0] if lim else wc, "no StreamReader limit is configured by the library", not lim,
+           f"the library sets a stream `limit` (`{src(lim[0])[:50] if lim else ''}`): readline() raises for a reply line longer than that (a long 257 path, an MLST facts line) "
+           "where asyncio's default accepts 64 KiB - the reply is not decoded and the following one is out of step", construct="support:stream limit")
+    code_cls = p.cls("Code")
+    overridden = [n.name for n in code_cls.body if isinstance(n, FuncT) and n.name in ("__new__", "__init__", "__eq__", "__ne__", "__hash__", "__str__", "__getitem__", "__format__", "isdigit", "startswith")]
+    ctx.ob("C06.SUPPORT", code_cls, "Code overrides nothing of str that the decoder uses (construction, comparison, isdigit)", not overridden,
+           f"Code overrides {overridden}: `Code(line[:3])` is no longer the three characters read - an unprefixed body line such as ' 12 files' turns into a numeric reply code",
+           construct=f"support:Code:{overridden}")
+
+
+RULES = [rule_enc, rule_dec, rule_mask, rule_lit, rule_cmd, rule_support]
